@@ -148,20 +148,30 @@ fn btree_rounds() -> Scenario {
 /// before any migration 64 more keys of the same page follow and overflow the page of the 17-bit index (17 -> 18 bits)
 /// while the first old index is still waiting; then everything is drained (both migrations) and the files are parsed
 fn growth_queued() -> Scenario {
+	growth_queued_on(false)
+}
+
+/// `rc`: on a reference-counted column (C07: every key keeps count 1 and must stay readable), without the file parser
+pub fn growth_queued_on(rc: bool) -> Scenario {
 	use crate::props::c09::page_key;
 	const C: u16 = 0x1234;
 	let mut spec = ColSpec::hash();
 	spec.uniform = true;
+	spec.ref_counted = rc;
+	spec.preimage = rc;
 	let mut cfg = Config::new(vec![spec]);
 	cfg.salt = 0;
 	let val = |i: u32| B::pat(8 + (i % 3) * 20, 7000 + i);
-	let fill: Tx = (0..64u8).map(|i| (0u8, Op::Set(page_key(C, i), val(i as u32)))).collect();
-	let a: Tx = vec![(0, Op::Set(page_key(C, 64), val(64)))];
-	let b: Tx = (65..129u8).map(|i| (0u8, Op::Set(page_key(C, i), val(i as u32)))).collect();
+	// (rc variant: the 64 keys of the fill lie in the upper half of the page, key A and the 64 keys of B in the lower
+	// half: B overflows the lower half's page of the 17-bit index at commit time, while the 16-bit index still waits)
+	let (fill_r, a_i, b_r) = if rc { (128..192u8, 0u8, 1..65u8) } else { (0..64u8, 64u8, 65..129u8) };
+	let fill: Tx = fill_r.map(|i| (0u8, Op::Set(page_key(C, i), val(i as u32)))).collect();
+	let a: Tx = vec![(0, Op::Set(page_key(C, a_i), val(a_i as u32)))];
+	let b: Tx = b_r.map(|i| (0u8, Op::Set(page_key(C, i), val(i as u32)))).collect();
 	let alpha = vec![a, b];
 	let mut all = alpha.clone();
 	all.push(fill.clone());
-	let mut s = Scenario::new("hash/two-index-growths-queued", cfg.clone(), alpha);
+	let mut s = Scenario::new(if rc { "rc-hash/two-index-growths-queued" } else { "hash/two-index-growths-queued" }, cfg.clone(), alpha);
 	s.universe = universe_of(&cfg, &all, &[]);
 	s.init = vec![Ev::Commit(fill), Ev::Drain];
 	s.max_commits = 2;
@@ -171,7 +181,9 @@ fn growth_queued() -> Scenario {
 	s.pm = false;
 	s.stages = vec![St::P];
 	s.drain_event = true;
-	s.post = Some(structure_post());
+	if !rc {
+		s.post = Some(structure_post());
+	}
 	// commit A, P, commit B, P, drain, reopen: one path
 	s.filter = Some(Arc::new(|hist: &[Ev], ev: &Ev| {
 		let commits = hist.iter().filter(|e| matches!(e, Ev::Commit(_))).count();
